@@ -1,21 +1,1325 @@
-"""C22 - generative compile fuzz (oracle only; not compared with the Coq model)."""
+"""C22 - generative compile fuzz (oracle only; this part of the check EXPLORES, it proves nothing).
+
+A case is {"in": [9, n], "kind": "fuzz", "model": False, "src": recipe, "dv": dialect variant, "opts": compile options}.
+Recipes are JSON: nested lists whose head is a constructor tag; they are built inside the implementation interpreter
+against a fresh MetaData.  A recipe the constructors reject (any exception while BUILDING) is outside the property
+("accepted by the constructors") and is reported as observation [-1]; only exceptions raised by compile() count.
+"""
+
+# ----------------------------------------------------------------------------------------------- dialect variants
+# key -> (qualified dialect class, constructor kwargs, attributes set after construction)
+VARIANTS = {
+    "default": ("sqlalchemy.engine.default.DefaultDialect", {}, {}),
+    "default-qmark": ("sqlalchemy.engine.default.DefaultDialect", {"paramstyle": "qmark"}, {}),
+    "default-numeric": ("sqlalchemy.engine.default.DefaultDialect", {"paramstyle": "numeric"}, {}),
+    "default-format": ("sqlalchemy.engine.default.DefaultDialect", {"paramstyle": "format"}, {}),
+    "sqlite": ("sqlalchemy.dialects.sqlite.pysqlite.SQLiteDialect_pysqlite", {}, {}),
+    "sqlite-numeric": ("sqlalchemy.dialects.sqlite.pysqlite._SQLiteDialect_pysqlite_numeric", {}, {}),
+    "postgresql": ("sqlalchemy.dialects.postgresql.psycopg2.PGDialect_psycopg2", {}, {}),
+    "postgresql-asyncpg": ("sqlalchemy.dialects.postgresql.asyncpg.PGDialect_asyncpg", {}, {}),
+    "postgresql-pg8000": ("sqlalchemy.dialects.postgresql.pg8000.PGDialect_pg8000", {}, {}),
+    "postgresql-psycopg": ("sqlalchemy.dialects.postgresql.psycopg.PGDialect_psycopg", {}, {}),
+    "mysql": ("sqlalchemy.dialects.mysql.mysqldb.MySQLDialect_mysqldb", {}, {"server_version_info": (8, 0, 30)}),
+    "mysql-5": ("sqlalchemy.dialects.mysql.pymysql.MySQLDialect_pymysql", {}, {"server_version_info": (5, 6, 0)}),
+    "mysql-connector": ("sqlalchemy.dialects.mysql.mysqlconnector.MySQLDialect_mysqlconnector", {}, {}),
+    "mariadb": ("sqlalchemy.dialects.mysql.mariadb.MariaDBDialect", {}, {"server_version_info": (10, 6, 0)}),
+    "mssql": ("sqlalchemy.dialects.mssql.pyodbc.MSDialect_pyodbc", {}, {"server_version_info": (15, 0), "_vsetup": True}),
+    "mssql-2008": ("sqlalchemy.dialects.mssql.pymssql.MSDialect_pymssql", {}, {"server_version_info": (10, 0), "_vsetup": True}),
+    "mssql-legacy-schema": ("sqlalchemy.dialects.mssql.pyodbc.MSDialect_pyodbc", {"legacy_schema_aliasing": True}, {}),
+    "oracle": ("sqlalchemy.dialects.oracle.cx_oracle.OracleDialect_cx_oracle", {}, {"server_version_info": (19, 0)}),
+    "oracle-11": ("sqlalchemy.dialects.oracle.oracledb.OracleDialect_oracledb", {}, {"server_version_info": (11, 2)}),
+    "oracle-noansi": ("sqlalchemy.dialects.oracle.cx_oracle.OracleDialect_cx_oracle", {"use_ansi": False, "optimize_limits": True},
+                      {"server_version_info": (11, 2)}),
+    "oracle-nchar": ("sqlalchemy.dialects.oracle.cx_oracle.OracleDialect_cx_oracle", {"use_nchar_for_unicode": True},
+                     {"server_version_info": (21, 0)}),
+}
+VKEYS = sorted(VARIANTS)
+FAMILY = lambda k: k.split("-")[0]  # noqa: E731
+
+TABLES = ["t1", "t2", "t3", "t4"]
+COLS = {
+    "t1": [("id", "int"), ("x", "int"), ("s", "str"), ("d", "dt"), ("b", "bool"), ("n", "num"), ("j", "json")],
+    "t2": [("id", "int"), ("t1_id", "int"), ("y", "int"), ("name", "str")],
+    "t3": [("id", "int"), ("z", "int"), ("w", "str")],
+    "t4": [("id", "int"), ("select", "int"), ("Mixed Case", "str"), ("with space", "int")],
+}
+IDENTS = ["", "a", "x1", "select", "Mixed", "with space", "q%q", 'dq"dq', "ünï", "a" * 70, "1abc", "_u", "tbl.col", "]b[", "`bt`"]
+
+
+# ----------------------------------------------------------------------------------------------- generation
+def _base(t):
+    return t if t.startswith("#") else t.split("#")[0]
+
+
+def _col(rng, tabs, ty=None):
+    t = rng.choice(tabs)
+    cs = [c for c in COLS[_base(t)] if ty is None or c[1] == ty] or COLS[_base(t)]
+    return ["c", t, rng.choice(cs)[0]]
+
+
+def _lit(rng, ty):
+    if ty == "int":
+        return ["lit", rng.choice([0, 1, -1, 7, 2 ** 40, None])]
+    if ty == "str":
+        return ["lit", rng.choice(["", "a", "it's", "100%", "a_b", "x\\y", "é", "%(k)s", ":p", "?", None])]
+    if ty == "bool":
+        return ["lit", rng.choice([True, False, None])]
+    if ty == "num":
+        return ["lit", rng.choice([0.5, 1e20, -3.25, None])]
+    return ["lit", None]
+
+
+def g_expr(rng, tabs, d, ty=None):
+    ty = ty or rng.choice(["int", "int", "str", "bool", "num"])
+    if d <= 0 or rng.random() < 0.22:
+        r = rng.random()
+        if r < 0.6:
+            return _col(rng, tabs, ty)
+        if r < 0.85:
+            return _lit(rng, ty)
+        if r < 0.9:
+            return ["bp", rng.choice(["p", "q1", "select", "a b", "x%", "p:1"]), _lit(rng, ty)[1],
+                    rng.choice(["", "expanding", "literal_execute", "required"])]
+        if r < 0.94:
+            return ["null"] if rng.random() < 0.5 else [rng.choice(["true", "false"])]
+        if r < 0.97:
+            return ["lc", rng.choice(["1", "x + 1", "%s", ":a", "a%b", "count(*)"])]
+        return ["text", rng.choice(["x > 1", "s like '%a%'", "y = :yy", "z = %(zz)s"])]
+    k = rng.random()
+    if ty == "bool":
+        if k < 0.3:
+            t2 = rng.choice(["int", "str", "num", "dt"])
+            return ["cmp", rng.choice(["==", "!=", "<", "<=", ">", ">=", "is_distinct_from", "is_not_distinct_from"]),
+                    g_expr(rng, tabs, d - 1, t2), g_expr(rng, tabs, d - 1, t2)]
+        if k < 0.42:
+            return [rng.choice(["and", "or"]), [g_expr(rng, tabs, d - 1, "bool") for _ in range(rng.randint(0, 3))]]
+        if k < 0.5:
+            return ["not", g_expr(rng, tabs, d - 1, "bool")]
+        if k < 0.62:
+            return ["strop", rng.choice(["like", "ilike", "not_like", "contains", "startswith", "endswith", "icontains",
+                                         "istartswith", "regexp_match", "match"]),
+                    g_expr(rng, tabs, d - 1, "str"), g_expr(rng, tabs, d - 1, "str"),
+                    rng.choice([None, None, "/", "autoescape", "flags"])]
+        if k < 0.74:
+            t2 = rng.choice(["int", "str"])
+            r = rng.random()
+            if r < 0.5:
+                rhs = ["list", [_lit(rng, t2) for _ in range(rng.randint(0, 3))]]
+            elif r < 0.7:
+                rhs = ["bp", "inp", [1, 2], "expanding"]
+            elif r < 0.85:
+                rhs = ["subq", g_select(rng, d - 1, simple=True)]
+            else:
+                rhs = ["list", [g_expr(rng, tabs, d - 1, t2)]]
+            return ["in", rng.choice([True, False]), g_expr(rng, tabs, d - 1, t2), rhs]
+        if k < 0.8:
+            return ["between", g_expr(rng, tabs, d - 1, "int"), g_expr(rng, tabs, d - 1, "int"), g_expr(rng, tabs, d - 1, "int"),
+                    rng.random() < 0.3]
+        if k < 0.86:
+            return ["isnull", rng.choice([True, False]), g_expr(rng, tabs, d - 1)]
+        if k < 0.92:
+            return ["exists", g_select(rng, d - 1, simple=True, correlate=tabs)]
+        if k < 0.96:
+            return ["tuple_in", [g_expr(rng, tabs, d - 1, "int"), g_expr(rng, tabs, d - 1, "int")],
+                    [[_lit(rng, "int"), _lit(rng, "int")] for _ in range(rng.randint(0, 2))]]
+        return ["anyall", rng.choice(["any_", "all_"]), g_expr(rng, tabs, d - 1, "int"), ["subq", g_select(rng, d - 1, simple=True)]]
+    if k < 0.3:
+        ops = {"int": ["+", "-", "*", "/", "//", "%", "&", "|", "^", "<<", ">>"], "num": ["+", "-", "*", "/", "%"],
+               "str": ["+", "concat"], "dt": ["-"]}.get(ty, ["+"])
+        return ["arith", rng.choice(ops), g_expr(rng, tabs, d - 1, ty), g_expr(rng, tabs, d - 1, ty)]
+    if k < 0.38:
+        return ["un", rng.choice(["-", "~", "distinct"]), g_expr(rng, tabs, d - 1, ty)]
+    if k < 0.52:
+        name = rng.choice(["count", "sum", "max", "coalesce", "now", "current_timestamp", "concat", "char_length", "random",
+                           "lower", "foo.bar", "cube", "rollup", "grouping_sets", "array_agg", "aggregate_strings", "localtime",
+                           "pow", "mod", "next_value_seq"])
+        nargs = {"count": rng.randint(0, 1), "char_length": 1, "aggregate_strings": 2, "now": 0, "current_timestamp": 0, "localtime": 0,
+                 "random": 0, "next_value_seq": 0, "pow": 2, "mod": 2, "sum": 1, "max": 1, "lower": 1, "array_agg": 1}.get(name, rng.randint(0, 2))
+        args = [g_expr(rng, tabs, d - 1, ty) for _ in range(nargs)]
+        if name == "aggregate_strings":
+            args[1] = ["lit", rng.choice([",", "'", "%"])]
+        f = ["func", name, args]
+        r = rng.random()
+        if name == "next_value_seq":
+            return f
+        if r < 0.2:
+            return ["over", f, [g_expr(rng, tabs, 0) for _ in range(rng.randint(0, 2))],
+                    [["ord", rng.choice(["", "desc", "asc", "nulls_first", "nulls_last"]), g_expr(rng, tabs, 0)] for _ in range(rng.randint(0, 2))],
+                    rng.choice([None, None, ["rows", None, 0], ["range", -1, 1], ["groups", 1, None], ["rows", 0, 0]])]
+        if r < 0.27:
+            return ["filter", f, g_expr(rng, tabs, d - 1, "bool")]
+        if r < 0.32:
+            return ["within_group", f, [g_expr(rng, tabs, 0)]]
+        if r < 0.36:
+            return ["agg_order_by", f, [g_expr(rng, tabs, 0)]]
+        return f
+    if k < 0.6:
+        return ["case", [[g_expr(rng, tabs, d - 1, "bool"), g_expr(rng, tabs, d - 1, ty)] for _ in range(rng.randint(1, 2))],
+                rng.choice([None, g_expr(rng, tabs, d - 1, ty)]), rng.random() < 0.2]
+    if k < 0.7:
+        return [rng.choice(["cast", "cast", "try_cast", "type_coerce"]), g_expr(rng, tabs, d - 1), g_type(rng, False)]
+    if k < 0.75:
+        return ["extract", rng.choice(["year", "dow", "epoch", "microseconds", "quarter", "foo"]), g_expr(rng, tabs, d - 1, "dt")]
+    if k < 0.8:
+        return ["scalar", g_select(rng, d - 1, simple=True, correlate=tabs, ncols=1)]
+    if k < 0.85:
+        return ["collate", g_expr(rng, tabs, d - 1, "str"), rng.choice(["NOCASE", "utf8_bin", "de-DE", 'a"b'])]
+    if k < 0.9:
+        return ["customop", rng.choice(["->>", "%%", "@@", "&&", ":=", "?"]), g_expr(rng, tabs, d - 1, ty), g_expr(rng, tabs, d - 1, ty),
+                rng.choice(["", "bool", "prec"])]
+    if k < 0.95:
+        if "t1" in tabs:
+            return ["getitem", ["c", "t1", "j"], rng.choice([0, "k", ["a", 1]]), rng.choice(["", "as_string", "as_integer", "as_json"])]
+        return _col(rng, tabs, ty)
+    return ["label", g_expr(rng, tabs, d - 1, ty), rng.choice(IDENTS)]
+
+
+TYPE_RECIPES = [
+    ["Integer"], ["BigInteger"], ["SmallInteger"], ["String"], ["String", 30], ["String", 30, "utf8_bin"], ["Text"], ["Unicode", 10],
+    ["UnicodeText"], ["Numeric"], ["Numeric", 10, 2], ["Float"], ["Float", 53], ["Double"], ["Boolean"], ["Boolean", "constraint"],
+    ["DateTime"], ["DateTime", "tz"], ["Date"], ["Time"], ["Time", "tz"], ["Interval"], ["LargeBinary"], ["LargeBinary", 100], ["Enum", ["a", "b"]],
+    ["Enum", ["a'b", ""]], ["Enum", ["x"], "constraint"], ["Enum", ["x"], "nonnative"], ["JSON"], ["ARRAY", ["Integer"]],
+    ["ARRAY", ["String", 5], 2], ["Uuid"], ["Uuid", "native"], ["PickleType"], ["NullType"], ["CHAR", 3], ["VARCHAR"], ["NCHAR", 2], ["NVARCHAR"],
+    ["TIMESTAMP", "tz"], ["DECIMAL", 5], ["REAL"], ["BLOB"], ["CLOB"], ["VARBINARY", 10], ["BINARY"], ["TupleType"], ["variant"],
+    ["decorator"], ["userdef"], ["pg.JSONB"], ["pg.HSTORE"], ["pg.INET"], ["pg.ENUM"], ["pg.INTERVAL"], ["pg.ARRAY"], ["pg.BIT", 3], ["pg.DOMAIN"],
+    ["pg.INT4RANGE"], ["pg.TSVECTOR"], ["my.TINYINT", 1], ["my.SET"], ["my.ENUM"], ["my.YEAR"], ["my.LONGTEXT"], ["my.BIT", 4], ["my.DOUBLE"],
+    ["my.VARCHAR", "national"], ["ms.MONEY"], ["ms.XML"], ["ms.DATETIMEOFFSET", 3], ["ms.NTEXT"], ["ms.ROWVERSION"], ["ms.BIT"],
+    ["ora.NUMBER", 5, 2], ["ora.RAW", 8], ["ora.INTERVAL"], ["ora.LONG"], ["ora.NCLOB"], ["ora.BINARY_FLOAT"], ["ora.VARCHAR2", 9], ["ora.ROWID"],
+    ["lite.JSON"], ["lite.DATETIME"],
+]
+
+
+def g_type(rng, ddl):
+    return rng.choice(TYPE_RECIPES)
+
+
+def g_from(rng, d):
+    """returns (from recipe, list of table keys usable in expressions)"""
+    r = rng.random()
+    t = rng.choice(TABLES)
+    if d <= 0 or r < 0.4:
+        return ["t", t], [t]
+    if r < 0.5:
+        return ["alias", t, rng.choice(["a1", "select", "Al ias"])], [t + "#a"]
+    if r < 0.75:
+        l, lt = g_from(rng, d - 1)
+        rt = rng.choice([x for x in TABLES if x not in [_base(y) for y in lt]] or ["t3"])
+        if rt in [_base(y) for y in lt]:
+            return l, lt
+        fk_ok = {"t1", "t2"} <= set(_base(x) for x in lt + [rt]) and all("#" not in x for x in lt)
+        on = rng.choice([None, "auto" if fk_ok else None, g_expr(rng, lt + [rt], 1, "bool")])
+        return ["join", l, ["t", rt], on, rng.choice(["inner", "left", "full"])], lt + [rt]
+    if r < 0.85:
+        return ["subquery", g_select(rng, d - 1, simple=True, ncols=2, labels=True), rng.choice(["sq", "Sub Q"]),
+                rng.choice(["", "", "lateral"])], ["#sq"]
+    if r < 0.9:
+        return ["values", [["vx", "int"], ["vy", "str"]], [[1, "a"], [2, None]], rng.choice(["v", None]), rng.random() < 0.3], ["#values"]
+    if r < 0.95:
+        return ["tablesample", t, rng.choice([5, 0.5]), rng.choice([None, 7])], [t + "#ts"]
+    return ["tvf", rng.choice(["generate_series", "json_each", "unnest"]), rng.choice(["gs", "G S"]), rng.random() < 0.4], ["#tvf"]
+
+
+COLS["#sq"] = [("r0", "int"), ("r1", "int")]
+COLS["#values"] = [("vx", "int"), ("vy", "str")]
+COLS["#tvf"] = [("value", "int")]
+
+
+def g_select(rng, d, simple=False, correlate=None, ncols=None, labels=False):
+    fr, tabs = g_from(rng, 0 if simple else d)
+    froms = [fr]
+    if not simple and rng.random() < 0.15:
+        fr2, tabs2 = g_from(rng, 0)
+        if not set(_base(x) for x in tabs2) & set(_base(x) for x in tabs):
+            froms.append(fr2)
+            tabs = tabs + tabs2
+    etabs = tabs + (list(correlate) if correlate and rng.random() < 0.6 else [])
+    n = ncols or rng.randint(1, 3)
+    cols = [g_expr(rng, tabs, 0 if simple else min(d, 2)) for _ in range(n)]
+    if labels:
+        cols = [["label", c, "r%d" % i] for i, c in enumerate(cols)]
+    s = {"cols": cols, "from": froms}
+    if rng.random() < 0.6:
+        s["where"] = g_expr(rng, etabs, min(d, 2), "bool")
+    if simple:
+        if rng.random() < 0.2:
+            s["limit"] = rng.choice([1, 0, 5])
+        return ["select", s]
+    if rng.random() < 0.25:
+        s["group_by"] = [g_expr(rng, tabs, rng.choice([0, 0, 1])) for _ in range(rng.randint(1, 2))]
+        if rng.random() < 0.5:
+            s["having"] = g_expr(rng, tabs, 1, "bool")
+    if rng.random() < 0.45:
+        s["order_by"] = [["ord", rng.choice(["", "desc", "asc", "nulls_first", "nulls_last"]),
+                          rng.choice([g_expr(rng, tabs, rng.choice([0, 1])), ["labelref", rng.choice(["r0", "nosuch", "x"])]])]
+                         for _ in range(rng.randint(1, 2))]
+    r = rng.random()
+    if r < 0.3:
+        s["limit"] = rng.choice([0, 1, 10, ["bp", "lim", 5, ""], ["lit", 3], ["arith", "+", ["lit", 1], ["lit", 2]]])
+    if 0.15 < r < 0.45:
+        s["offset"] = rng.choice([0, 2, ["bp", "off", 5, ""], ["arith", "+", ["lit", 1], ["lit", 2]]])
+    if 0.45 < r < 0.55:
+        s["fetch"] = [rng.choice([1, 5, ["bp", "fe", 5, ""]]), rng.random() < 0.3, rng.random() < 0.3]
+        if rng.random() < 0.5:
+            s["offset"] = rng.choice([0, 2])
+    if rng.random() < 0.15:
+        s["distinct"] = rng.choice([True, True, [g_expr(rng, tabs, 0)]])
+    if rng.random() < 0.1:
+        s["for_update"] = rng.choice([{}, {"nowait": True}, {"skip_locked": True}, {"read": True}, {"key_share": True},
+                                      {"of": _col(rng, tabs)}, {"of": ["t", rng.choice(TABLES)], "read": True, "nowait": True}])
+    if rng.random() < 0.08:
+        s["prefix"] = [rng.choice(["SQL_NO_CACHE", "/*+ hint */"]), rng.choice([None, "mysql", "oracle", "*"])]
+    if rng.random() < 0.06:
+        s["suffix"] = ["OPTION (x)", rng.choice([None, "mssql"])]
+    if rng.random() < 0.08:
+        s["hint"] = [rng.choice(["stmt", "table"]), rng.choice(["INDEX(%(name)s ix)", "WITH (NOLOCK)", "hint %(name)s %%"]),
+                     rng.choice(["*", "mysql", "mssql", "oracle", "postgresql", "sqlite"])]
+    if rng.random() < 0.12:
+        s["label_style"] = rng.choice(["none", "tablename_plus_col", "disambiguate", "legacy_orm"])
+    if d > 0 and rng.random() < 0.18:
+        s["ctes"] = [[rng.choice(["cte1", "Cte 2", "select"]), g_select(rng, d - 1, simple=True, ncols=2, labels=True),
+                      rng.choice(["", "", "recursive", "nesting", "materialized", "not_materialized"]), rng.random() < 0.6]]
+    sel = ["select", s]
+    if d > 0 and rng.random() < 0.12:
+        other = g_select(rng, 0, simple=True, ncols=n)
+        sel = ["setop", rng.choice(["union", "union_all", "intersect", "except_", "except_all", "intersect_all"]), [sel, other],
+               {"order_by": rng.random() < 0.3, "limit": rng.choice([None, None, 3]), "offset": rng.choice([None, None, 1]),
+                "subq": rng.random() < 0.2}]
+    return sel
+
+
+def g_dml(rng, d):
+    t = rng.choice(TABLES)
+    cs = COLS[t]
+    kind = rng.random()
+    ret = rng.choice([None, None, [], ["cols"], ["star"], ["expr"]])
+    cte = None
+    if rng.random() < 0.1:
+        cte = ["cte1", g_select(rng, 0, simple=True, ncols=2, labels=True), rng.choice(["", "recursive"]), True]
+    if kind < 0.45:
+        vals = rng.random()
+        r = {"table": t, "returning": ret, "cte": cte}
+        sub = rng.sample(cs, rng.randint(0, min(3, len(cs))))
+        if vals < 0.4:
+            r["values"] = {c[0]: rng.choice([_lit(rng, c[1]), g_expr(rng, [t], 1, c[1]) if rng.random() < 0.3 else _lit(rng, c[1])]) for c in sub}
+        elif vals < 0.55:
+            r["multi"] = [{c[0]: _lit(rng, c[1]) for c in sub} for _ in range(rng.randint(1, 3))]
+        elif vals < 0.7:
+            names = [c[0] for c in sub] or [cs[0][0]]
+            r["from_select"] = [names, g_select(rng, min(d, 1), simple=rng.random() < 0.7, ncols=len(names)), rng.random() < 0.5]
+        elif vals < 0.8:
+            r["column_keys"] = [c[0] for c in sub]
+        r["inline"] = rng.random() < 0.15
+        oc = rng.random()
+        if oc < 0.25:
+            r["on_conflict"] = [rng.choice(["sqlite", "postgresql"]), rng.choice(["nothing", "update"]),
+                                rng.choice([None, ["id"], ["cons"]]), rng.choice([None, g_expr(rng, [t], 1, "bool")]),
+                                rng.choice(["excluded", "lit", "empty"])]
+        elif oc < 0.35:
+            r["on_duplicate"] = rng.choice(["kw", "inserted", "list", "empty"])
+        if rng.random() < 0.08:
+            r["prefix"] = rng.choice(["OR REPLACE", "IGNORE"])
+        return ["insert", r]
+    if kind < 0.78:
+        r = {"table": t, "returning": ret, "cte": cte, "where": g_expr(rng, [t], min(d, 2), "bool") if rng.random() < 0.8 else None}
+        sub = rng.sample(cs, rng.randint(0, min(3, len(cs))))
+        r["values"] = {c[0]: (g_expr(rng, [t], 1, c[1]) if rng.random() < 0.5 else _lit(rng, c[1])) for c in sub}
+        if rng.random() < 0.15:
+            r["ordered"] = True
+        if rng.random() < 0.2:
+            o = rng.choice([x for x in TABLES if x != t])
+            r["from"] = o
+            r["where"] = ["cmp", "==", ["c", t, cs[0][0]], ["c", o, COLS[o][0][0]]]
+            if rng.random() < 0.5:
+                r["values"][("%s.%s" % (o, COLS[o][1][0]))] = _lit(rng, COLS[o][1][1])
+        if rng.random() < 0.1:
+            r["mysql_limit"] = rng.choice([1, 0, None])
+        if rng.random() < 0.1:
+            r["scalar_set"] = ["scalar", g_select(rng, 0, simple=True, correlate=[t], ncols=1)]
+        return ["update", r]
+    r = {"table": t, "returning": ret, "cte": cte, "where": g_expr(rng, [t], min(d, 2), "bool") if rng.random() < 0.8 else None}
+    if rng.random() < 0.2:
+        o = rng.choice([x for x in TABLES if x != t])
+        r["from"] = o
+        r["where"] = ["cmp", "==", ["c", t, cs[0][0]], ["c", o, COLS[o][0][0]]]
+    if rng.random() < 0.1:
+        r["mysql_limit"] = rng.choice([1, None])
+    return ["delete", r]
+
+
+def g_ddl(rng):
+    k = rng.random()
+    ncol = rng.randint(1, 4)
+    cols = []
+    for i in range(ncol):
+        c = {"name": rng.choice(IDENTS) if rng.random() < 0.25 else "c%d" % i, "type": g_type(rng, True)}
+        if rng.random() < 0.3:
+            c["pk"] = True
+            if rng.random() < 0.4:
+                c["autoincrement"] = rng.choice([True, False, "auto"])
+        if rng.random() < 0.25:
+            c["nullable"] = rng.random() < 0.5
+        r = rng.random()
+        if r < 0.12:
+            c["server_default"] = rng.choice([["text", "0"], ["text", "'a''b'"], ["func", "now"], ["str", "x'y"], ["lit", 5], ["bool", True], ["text", "(1+1)"]])
+        elif r < 0.2:
+            c["identity"] = rng.choice([{}, {"start": 5, "increment": 2}, {"always": True, "cycle": True, "minvalue": 1, "maxvalue": 9, "cache": 3},
+                                        {"on_null": True, "order": True}, {"nominvalue": True, "nomaxvalue": True}])
+        elif r < 0.27:
+            c["computed"] = [rng.choice(["c0 + 1", "1"]), rng.choice([None, True, False])]
+        elif r < 0.32:
+            c["sequence"] = [rng.choice(["sq", "Se q"]), rng.choice([{}, {"start": 1, "increment": 1, "schema": "sch"}, {"optional": True}, {"cycle": True, "cache": 2, "order": True}])]
+        elif r < 0.37:
+            c["default"] = rng.choice([5, "x", ["func", "now"]])
+        if rng.random() < 0.1:
+            c["comment"] = rng.choice(["c", "it's", "100%", ""])
+        if rng.random() < 0.1:
+            c["unique"] = True
+        if rng.random() < 0.1:
+            c["index"] = True
+        if rng.random() < 0.12:
+            c["fk"] = [rng.choice(["other.id", "sch.other.id", "other.Mixed Case"]),
+                       rng.choice([{}, {"ondelete": "CASCADE"}, {"onupdate": "SET NULL", "deferrable": True, "initially": "DEFERRED"},
+                                   {"use_alter": True, "name": "fk1"}, {"match": "FULL"}, {"ondelete": "bogus drop"}])]
+        cols.append(c)
+    t = {"name": rng.choice(["tt", "select", "My Table", "a" * 65]), "cols": cols}
+    if rng.random() < 0.2:
+        t["schema"] = rng.choice(["sch", "My Schema", "a.b"])
+    cons = []
+    names = [c["name"] for c in cols]
+    if rng.random() < 0.2:
+        cons.append(["unique", rng.sample(names, rng.randint(0, len(names))), rng.choice([None, "uq1", "U Q"]), rng.choice([{}, {"deferrable": True}, {"postgresql_nulls_not_distinct": True}])])
+    if rng.random() < 0.2:
+        cons.append(["check", rng.choice(["c0 > 0", "c0 like '%a%'", ""]), rng.choice([None, "ck1"])])
+    if rng.random() < 0.1:
+        cons.append(["pk", rng.sample(names, rng.randint(0, len(names))), rng.choice([None, "pk1"]), rng.choice([{}, {"mssql_clustered": True}, {"mssql_clustered": False}])])
+    if rng.random() < 0.25:
+        cons.append(["index", rng.choice([None, "ix1", "I X", "i" * 70]), rng.sample(names, rng.randint(0, min(2, len(names)))),
+                     rng.choice([{}, {"unique": True}, {"postgresql_using": "gin"}, {"postgresql_where": "c0 > 1"}, {"mysql_length": 5},
+                                 {"mysql_length": {"c0": 3}}, {"mssql_include": ["c0"]}, {"mssql_clustered": True}, {"sqlite_where": "c0 > 1"},
+                                 {"oracle_bitmap": True}, {"oracle_compress": 1}, {"mysql_prefix": "FULLTEXT"}, {"mysql_using": "hash"},
+                                 {"postgresql_include": ["c0"]}, {"postgresql_concurrently": True}, {"postgresql_ops": {"c0": "text_pattern_ops"}},
+                                 {"mssql_where": "c0 > 1"}, {"mssql_columnstore": True}, {"postgresql_with": {"fillfactor": 50}},
+                                 {"postgresql_tablespace": "ts"}, {"postgresql_nulls_not_distinct": True}, {"mariadb_length": 2}]),
+                     rng.choice(["cols", "cols", "expr", "desc"])])
+        # the option values name an existing column (an unknown column name there is a plain KeyError: user error)
+        opts = cons[-1][3]
+        for k2, v in list(opts.items()):
+            if v == ["c0"]:
+                opts[k2] = [names[0]]
+            elif isinstance(v, dict) and "c0" in v:
+                opts[k2] = {names[0]: v["c0"]}
+    t["cons"] = cons
+    if rng.random() < 0.2:
+        t["opts"] = rng.choice([{"mysql_engine": "InnoDB", "mysql_charset": "utf8"}, {"sqlite_with_rowid": False}, {"sqlite_strict": True},
+                                {"oracle_compress": True}, {"oracle_compress": 6}, {"postgresql_partition_by": "RANGE (c0)"},
+                                {"postgresql_inherits": "p"}, {"postgresql_inherits": ["p", "q"]}, {"postgresql_with_oids": True},
+                                {"postgresql_on_commit": "DROP"}, {"postgresql_tablespace": "ts"}, {"mysql_partition_by": "HASH(c0)", "mysql_partitions": "3"},
+                                {"sqlite_autoincrement": True}, {"mariadb_engine": "x", "mysql_engine": "y"}, {"mysql_auto_increment": "5"},
+                                {"oracle_tablespace": "ts"}, {"postgresql_using": "heap"}, {"mysql_default charset": "x"}, {"prefixes": ["TEMPORARY"]},
+                                {"comment": "it's a 100% table"}, {"mysql_comment": "x"}, {"oracle_on_commit": "PRESERVE ROWS"}])
+    ops = ["create_table", "create_table", "create_table", "drop_table", "create_index", "drop_index", "add_constraint", "drop_constraint",
+           "create_sequence", "drop_sequence", "create_schema", "drop_schema", "set_table_comment", "drop_table_comment",
+           "set_column_comment", "drop_column_comment", "create_all", "drop_all", "create_table_as", "create_view", "set_constraint_comment"]
+    return ["ddl", rng.choice(ops), t, {"if_exists": rng.random() < 0.3, "cascade": rng.random() < 0.2,
+                                         "include_fk": rng.choice([None, True, False])}]
+
+
+def g_opts(rng):
+    o = {}
+    r = rng.random()
+    if r < 0.25:
+        o["literal_binds"] = True
+    elif r < 0.4:
+        o["render_postcompile"] = True
+    if rng.random() < 0.15:
+        o["schema_translate_map"] = rng.choice([{"": "tr"}, {"sch": "Other Sch"}, {"sch": ""}, {"": "a", "sch": "b"}, {"nosuch": "x"}])
+        if rng.random() < 0.5:
+            o["render_schema_translate"] = True
+    if rng.random() < 0.05:
+        o["for_executemany"] = True
+    if rng.random() < 0.05:
+        o["construct_params"] = True
+    return o
 
 
 def gen(rng, n):
-    return []
+    cases = []
+    for i in range(n):
+        r = rng.random()
+        if r < 0.5:
+            src = g_select(rng, rng.randint(0, 3))
+        elif r < 0.75:
+            src = g_dml(rng, rng.randint(0, 2))
+        else:
+            src = g_ddl(rng)
+        cases.append({"in": [9, i], "kind": "fuzz", "model": False, "src": src, "dv": rng.choice(VKEYS), "opts": g_opts(rng)})
+    return cases
 
 
 def nontrivial(c):
-    return True
+    import json
+
+    return json.dumps(c.get("src")).count("[") >= 6
+
+
+# ----------------------------------------------------------------------------------------------- building
+class NotAccepted(Exception):
+    pass
+
+
+_vcache = {}
+
+
+def dialect_variant(k):
+    if k not in _vcache:
+        from specs.c22 import _resolve
+
+        q, kw, attrs = VARIANTS[k]
+        d = _resolve(q)(**kw)
+        for a, v in attrs.items():
+            if a == "_vsetup":
+                continue
+            setattr(d, a, tuple(v) if isinstance(v, list) else v)
+        if attrs.get("_vsetup"):
+            d._setup_version_attributes()
+        _vcache[k] = d
+    return _vcache[k]
+
+
+class B:
+    """builder of one recipe against fresh metadata"""
+
+    def __init__(self):
+        import sqlalchemy as sa
+
+        self.sa = sa
+        m = self.m = sa.MetaData()
+        self.T = {
+            "t1": sa.Table("t1", m, sa.Column("id", sa.Integer, primary_key=True), sa.Column("x", sa.Integer), sa.Column("s", sa.String(30)),
+                           sa.Column("d", sa.DateTime), sa.Column("b", sa.Boolean), sa.Column("n", sa.Numeric(10, 2)), sa.Column("j", sa.JSON)),
+            "t2": sa.Table("t2", m, sa.Column("id", sa.Integer, primary_key=True), sa.Column("t1_id", sa.ForeignKey("t1.id")),
+                           sa.Column("y", sa.Integer), sa.Column("name", sa.String(20))),
+            "t3": sa.Table("t3", m, sa.Column("id", sa.Integer, primary_key=True), sa.Column("z", sa.Integer), sa.Column("w", sa.Text), schema="sch"),
+            "t4": sa.Table("t4", m, sa.Column("id", sa.Integer, primary_key=True), sa.Column("select", sa.Integer),
+                           sa.Column("Mixed Case", sa.String), sa.Column("with space", sa.Integer)),
+        }
+        self.F = {}
+
+    # ---- from objects
+    def table(self, key):
+        if key in self.F:
+            return self.F[key]
+        if key in self.T:
+            return self.T[key]
+        base = _base(key)
+        if base in self.T and (key.endswith("#a") or key.endswith("#ts")):
+            return self.F.get(key, self.T[base])
+        raise NotAccepted("unknown from %r" % key)
+
+    def col(self, t, c):
+        tb = self.table(t)
+        try:
+            return tb.c[c]
+        except KeyError:
+            cs = list(tb.c)
+            if not cs:
+                raise NotAccepted("no columns")
+            return cs[0]
+
+    def frm(self, r):
+        sa = self.sa
+        k = r[0]
+        if k == "t":
+            return self.T[r[1]]
+        if k == "alias":
+            a = self.T[r[1]].alias(r[2])
+            self.F[r[1] + "#a"] = a
+            return a
+        if k == "join":
+            l, rt = self.frm(r[1]), self.frm(r[2])
+            on = r[3]
+            kw = {"isouter": r[4] == "left", "full": r[4] == "full"}
+            if on is None:
+                return sa.join(l, rt, sa.true(), **kw)
+            if on == "auto":
+                return sa.join(l, rt, **kw)
+            return sa.join(l, rt, self.e(on), **kw)
+        if k == "subquery":
+            s = self.sel(r[1])
+            sq = s.lateral(r[2]) if r[3] == "lateral" else s.subquery(r[2])
+            self.F["#sq"] = sq
+            return sq
+        if k == "values":
+            v = sa.values(*[sa.column(n, {"int": sa.Integer, "str": sa.String}[t]) for n, t in r[1]], name=r[3], literal_binds=r[4]).data(
+                [tuple(x) for x in r[2]])
+            self.F["#values"] = v
+            return v
+        if k == "tablesample":
+            ts = sa.tablesample(self.T[r[1]], r[2], name="ts", seed=None if r[3] is None else sa.literal(r[3]))
+            self.F[r[1] + "#ts"] = ts
+            return ts
+        if k == "tvf":
+            f = getattr(sa.func, r[1])(1, 5)
+            tv = f.table_valued("value", name=r[2], with_ordinality="ord" if r[3] else None)
+            self.F["#tvf"] = tv
+            return tv
+        raise NotAccepted("from %r" % (r,))
+
+    # ---- types
+    def ty(self, r):
+        sa = self.sa
+        from sqlalchemy import types as T
+        from sqlalchemy.dialects import mssql, mysql, oracle, postgresql, sqlite
+
+        n, a = r[0], r[1:]
+        if n == "Boolean":
+            return T.Boolean(create_constraint=bool(a))
+        if n in ("DateTime", "Time", "TIMESTAMP"):
+            return getattr(T, n)(timezone=bool(a))
+        if n == "String" and len(a) == 2:
+            return T.String(a[0], collation=a[1])
+        if n == "Enum":
+            kw = {}
+            if "constraint" in a:
+                kw["create_constraint"] = True
+            if "nonnative" in a:
+                kw["native_enum"] = False
+            return T.Enum(*a[0], name="en", **kw)
+        if n == "ARRAY":
+            return T.ARRAY(self.ty(a[0]), dimensions=a[1] if len(a) > 1 else None)
+        if n == "Uuid":
+            return T.Uuid(native_uuid=bool(a))
+        if n == "TupleType":
+            return T.TupleType(T.Integer(), T.String())
+        if n == "variant":
+            return T.String(10).with_variant(mysql.VARCHAR(10, charset="utf8"), "mysql", "mariadb").with_variant(oracle.NUMBER(3), "oracle")
+        if n == "decorator":
+            class D(T.TypeDecorator):
+                impl = T.String
+                cache_ok = True
+
+            return D(5)
+        if n == "userdef":
+            class U(T.UserDefinedType):
+                cache_ok = True
+
+                def get_col_spec(self, **kw):
+                    return "UDT"
+
+            return U()
+        mods = {"pg": postgresql, "my": mysql, "ms": mssql, "ora": oracle, "lite": sqlite}
+        if "." in n:
+            m, cn = n.split(".")
+            cls = getattr(mods[m], cn)
+            if n == "pg.ENUM":
+                return cls("a", "b", name="pgen")
+            if n == "pg.ARRAY":
+                return cls(T.Integer)
+            if n == "pg.DOMAIN":
+                return cls("dom", T.Integer, check="VALUE > 0")
+            if n == "my.SET":
+                return cls("a", "b")
+            if n == "my.ENUM":
+                return cls("a", "b")
+            if n == "my.VARCHAR":
+                return cls(10, national=True)
+            if n == "pg.INTERVAL":
+                return cls(fields="YEAR", precision=2)
+            if n == "ora.INTERVAL":
+                return cls(day_precision=2, second_precision=3)
+            return cls(*a)
+        return getattr(T, n)(*a)
+
+    # ---- expressions
+    def e(self, r):
+        sa = self.sa
+        if not isinstance(r, list):
+            return sa.literal(r)
+        k = r[0]
+        if k == "c":
+            return self.col(r[1], r[2])
+        if k == "lit":
+            return sa.literal(r[1]) if r[1] is not None else sa.null()
+        if k == "bp":
+            kw = {}
+            if r[3] == "expanding":
+                kw["expanding"] = True
+                v = r[2] if isinstance(r[2], list) else [r[2]]
+                return sa.bindparam(r[1], v, **kw)
+            if r[3] == "literal_execute":
+                kw["literal_execute"] = True
+            if r[3] == "required":
+                return sa.bindparam(r[1])
+            return sa.bindparam(r[1], r[2], **kw)
+        if k == "null":
+            return sa.null()
+        if k in ("true", "false"):
+            return getattr(sa, k)()
+        if k == "lc":
+            return sa.literal_column(r[1])
+        if k == "text":
+            return sa.text(r[1])
+        if k == "cmp":
+            a, b = self.e(r[2]), self.e(r[3])
+            if r[1] in ("is_distinct_from", "is_not_distinct_from"):
+                return getattr(a, r[1])(b)
+            import operator as op
+
+            return {"==": op.eq, "!=": op.ne, "<": op.lt, "<=": op.le, ">": op.gt, ">=": op.ge}[r[1]](a, b)
+        if k in ("and", "or"):
+            return (sa.and_ if k == "and" else sa.or_)(*[self.e(x) for x in r[1]])
+        if k == "not":
+            return sa.not_(self.e(r[1]))
+        if k == "strop":
+            a, b = self.e(r[2]), self.e(r[3])
+            kw = {}
+            if r[4] == "/" and r[1] not in ("regexp_match", "match"):
+                kw["escape"] = "/"
+            if r[4] == "autoescape" and r[1] in ("contains", "startswith", "endswith", "icontains", "istartswith"):
+                if r[3][0] != "lit" or not isinstance(r[3][1], str):
+                    raise NotAccepted("autoescape needs a plain string")
+                b = r[3][1]
+                kw["autoescape"] = True
+            if r[4] == "flags" and r[1] == "regexp_match":
+                kw["flags"] = "i"
+            return getattr(a, r[1])(b, **kw)
+        if k == "in":
+            a = self.e(r[2])
+            rhs = r[3]
+            if rhs[0] == "list":
+                v = [self.e(x) for x in rhs[1]]
+            elif rhs[0] == "subq":
+                v = self.sel(rhs[1])
+            else:
+                v = self.e(rhs)
+            return a.in_(v) if r[1] else a.not_in(v)
+        if k == "between":
+            return self.e(r[1]).between(self.e(r[2]), self.e(r[3]), symmetric=r[4])
+        if k == "isnull":
+            return self.e(r[2]).is_(None) if r[1] else self.e(r[2]).is_not(None)
+        if k == "exists":
+            return self.sel(r[1]).exists()
+        if k == "tuple_in":
+            return sa.tuple_(*[self.e(x) for x in r[1]]).in_([tuple(self.e(y) for y in x) for x in r[2]])
+        if k == "anyall":
+            return self.e(r[2]) == getattr(sa, r[1])(self.sel(r[3][1]).scalar_subquery())
+        if k == "arith":
+            a, b = self.e(r[2]), self.e(r[3])
+            import operator as op
+
+            if r[1] == "concat":
+                return a.concat(b)
+            if r[1] in ("&", "|", "^", "<<", ">>"):
+                return getattr(a, {"&": "bitwise_and", "|": "bitwise_or", "^": "bitwise_xor", "<<": "bitwise_lshift", ">>": "bitwise_rshift"}[r[1]])(b)
+            return {"+": op.add, "-": op.sub, "*": op.mul, "/": op.truediv, "//": op.floordiv, "%": op.mod}[r[1]](a, b)
+        if k == "un":
+            a = self.e(r[2])
+            return -a if r[1] == "-" else (a.bitwise_not() if r[1] == "~" else a.distinct())
+        if k == "func":
+            if r[1] == "next_value_seq":
+                return sa.Sequence("sq1").next_value()
+            f = sa.func
+            for p in r[1].split("."):
+                f = getattr(f, p)
+            return f(*[self.e(x) for x in r[2]])
+        if k == "over":
+            f = self.e(r[1])
+            kw = {}
+            if r[4]:
+                kw["range_" if r[4][0] == "range" else r[4][0]] = (r[4][1], r[4][2])
+            return f.over(partition_by=[self.e(x) for x in r[2]] or None, order_by=[self.ordr(x) for x in r[3]] or None, **kw)
+        if k == "filter":
+            return self.e(r[1]).filter(self.e(r[2]))
+        if k == "within_group":
+            return self.e(r[1]).within_group(*[self.e(x) for x in r[2]])
+        if k == "agg_order_by":
+            f = self.e(r[1])
+            if not hasattr(f, "aggregate_order_by"):
+                raise NotAccepted("no aggregate_order_by")
+            return f.aggregate_order_by(*[self.e(x) for x in r[2]])
+        if k == "case":
+            whens = [(self.e(c), self.e(v)) for c, v in r[1]]
+            kw = {} if r[2] is None else {"else_": self.e(r[2])}
+            if r[3]:
+                return sa.case({1: whens[0][1]}, value=self.T["t1"].c.x, **kw)
+            return sa.case(*whens, **kw)
+        if k in ("cast", "try_cast", "type_coerce"):
+            return getattr(sa, k)(self.e(r[1]), self.ty(r[2]))
+        if k == "extract":
+            return sa.extract(r[1], self.e(r[2]))
+        if k == "scalar":
+            return self.sel(r[1]).scalar_subquery()
+        if k == "collate":
+            return self.e(r[1]).collate(r[2])
+        if k == "customop":
+            a, b = self.e(r[2]), self.e(r[3])
+            if r[4] == "bool":
+                return a.bool_op(r[1])(b)
+            if r[4] == "prec":
+                return a.op(r[1], precedence=5, is_comparison=True)(b)
+            return a.op(r[1])(b)
+        if k == "getitem":
+            x = self.e(r[1])[tuple(r[2]) if isinstance(r[2], list) else r[2]]
+            return getattr(x, r[3])() if r[3] else x
+        if k == "label":
+            return self.e(r[1]).label(r[2])
+        if k == "labelref":
+            return r[1]
+        raise NotAccepted("expr %r" % (r,))
+
+    def ordr(self, r):
+        x = self.e(r[2])
+        if isinstance(x, str):
+            return {"": lambda s: s, "desc": self.sa.desc, "asc": self.sa.asc, "nulls_first": self.sa.nulls_first, "nulls_last": self.sa.nulls_last}[r[1]](x)
+        return getattr(x, r[1])() if r[1] else x
+
+    # ---- statements
+    def sel(self, r):
+        sa = self.sa
+        if r[0] == "setop":
+            parts = [self.sel(x) for x in r[2]]
+            s = getattr(sa, r[1])(*parts)
+            o = r[3]
+            if o.get("order_by"):
+                s = s.order_by(sa.literal_column("1"))
+            if o.get("limit") is not None:
+                s = s.limit(o["limit"])
+            if o.get("offset") is not None:
+                s = s.offset(o["offset"])
+            if o.get("subq"):
+                s = sa.select(s.subquery("u"))
+            return s
+        d = r[1]
+        froms = [self.frm(x) for x in d["from"]]
+        ctes = []
+        for name, q, mode, use in d.get("ctes", []):
+            qq = self.sel(q)
+            c = qq.cte(name, recursive=mode == "recursive", nesting=mode == "nesting")
+            if mode in ("materialized", "not_materialized"):
+                c = c.prefix_with(mode.upper().replace("_", " "))
+            if mode == "recursive":
+                c = c.union_all(sa.select(*[col for col in c.c]).where(list(c.c)[0] < 5))
+            ctes.append((c, use))
+        cols = [self.e(x) for x in d["cols"]]
+        s = sa.select(*cols).select_from(*froms)
+        for c, use in ctes:
+            if use:
+                s = s.where(list(c.c)[0] == 1)
+            else:
+                s = s.add_cte(c)
+        if d.get("where") is not None:
+            s = s.where(self.e(d["where"]))
+        if "group_by" in d:
+            s = s.group_by(*[self.e(x) for x in d["group_by"]])
+        if "having" in d:
+            s = s.having(self.e(d["having"]))
+        if "order_by" in d:
+            s = s.order_by(*[self.ordr(x) for x in d["order_by"]])
+        if "limit" in d:
+            s = s.limit(self.e(d["limit"]) if isinstance(d["limit"], list) else d["limit"])
+        if "offset" in d:
+            s = s.offset(self.e(d["offset"]) if isinstance(d["offset"], list) else d["offset"])
+        if "fetch" in d:
+            f = d["fetch"]
+            s = s.fetch(self.e(f[0]) if isinstance(f[0], list) else f[0], with_ties=f[1], percent=f[2])
+        if "distinct" in d:
+            s = s.distinct() if d["distinct"] is True else s.distinct(*[self.e(x) for x in d["distinct"]])
+        if "for_update" in d:
+            fu = dict(d["for_update"])
+            if "of" in fu:
+                fu["of"] = self.T[fu["of"][1]] if fu["of"][0] == "t" else self.e(fu["of"])
+            s = s.with_for_update(**fu)
+        if "prefix" in d:
+            s = s.prefix_with(d["prefix"][0], dialect=d["prefix"][1] or "*")
+        if "suffix" in d:
+            s = s.suffix_with(d["suffix"][0], dialect=d["suffix"][1] or "*")
+        if "hint" in d:
+            h = d["hint"]
+            s = s.with_statement_hint(h[1], h[2]) if h[0] == "stmt" else s.with_hint(froms[0], h[1], h[2])
+        if "label_style" in d:
+            s = s.set_label_style({"none": sa.LABEL_STYLE_NONE, "tablename_plus_col": sa.LABEL_STYLE_TABLENAME_PLUS_COL,
+                                   "disambiguate": sa.LABEL_STYLE_DISAMBIGUATE_ONLY, "legacy_orm": sa.sql.selectable.SelectLabelStyle.LABEL_STYLE_LEGACY_ORM}[d["label_style"]])
+        return s
+
+    def returning(self, st, t, ret):
+        if ret is None:
+            return st
+        if ret == []:
+            return st
+        if ret == ["cols"]:
+            return st.returning(list(t.c)[0], list(t.c)[-1])
+        if ret == ["star"]:
+            return st.returning(t)
+        return st.returning((list(t.c)[0] + 1).label("e"), self.sa.func.lower(self.sa.literal("X")))
+
+    def add_cte(self, st, cte):
+        if cte is None:
+            return st
+        name, q, mode, _ = cte
+        c = self.sel(q).cte(name, recursive=mode == "recursive")
+        return st.add_cte(c)
+
+    def dml(self, r):
+        sa = self.sa
+        k, d = r
+        t = self.T[d["table"]]
+        if k == "insert":
+            oc, od = d.get("on_conflict"), d.get("on_duplicate")
+            if oc:
+                from sqlalchemy.dialects import postgresql, sqlite
+
+                st = {"sqlite": sqlite, "postgresql": postgresql}[oc[0]].insert(t)
+            elif od:
+                from sqlalchemy.dialects import mysql
+
+                st = mysql.insert(t)
+            else:
+                st = sa.insert(t)
+            if "values" in d:
+                st = st.values({k2: self.e(v) for k2, v in d["values"].items()})
+            elif "multi" in d:
+                st = st.values([{k2: self.e(v) for k2, v in row.items()} for row in d["multi"]])
+            elif "from_select" in d:
+                fs = d["from_select"]
+                st = st.from_select(fs[0], self.sel(fs[1]), include_defaults=fs[2])
+            if d.get("inline"):
+                st = st.inline()
+            if oc:
+                target = {"index_elements": oc[2]} if oc[2] and oc[2] != ["cons"] else ({"constraint": "uq_x"} if oc[2] == ["cons"] and oc[0] == "postgresql" else {})
+                if oc[1] == "nothing":
+                    st = st.on_conflict_do_nothing(**({k2: v for k2, v in target.items()}))
+                else:
+                    if not target:
+                        target = {"index_elements": ["id"]}
+                    c1 = list(t.c)[1]
+                    set_ = {"excluded": {c1.name: st.excluded[c1.name]}, "lit": {c1.name: 5}, "empty": {}}[oc[4]]
+                    st = st.on_conflict_do_update(set_=set_, where=None if oc[3] is None else self.e(oc[3]), **target)
+            if od:
+                c1 = list(t.c)[1]
+                if od == "kw":
+                    st = st.on_duplicate_key_update(**{c1.name: 5} if c1.name.isidentifier() else {})
+                elif od == "inserted":
+                    st = st.on_duplicate_key_update({c1.name: st.inserted[c1.name]})
+                elif od == "list":
+                    st = st.on_duplicate_key_update([(c1.name, 5), (list(t.c)[0].name, sa.func.now())])
+                else:
+                    st = st.on_duplicate_key_update({})
+            if d.get("prefix"):
+                st = st.prefix_with(d["prefix"])
+        elif k == "update":
+            st = sa.update(t)
+            if d.get("where") is not None:
+                st = st.where(self.e(d["where"]))
+            vals = {}
+            for k2, v in d["values"].items():
+                if "." in k2:
+                    tn, cn = k2.split(".", 1)
+                    vals[self.T[tn].c[cn]] = self.e(v)
+                else:
+                    vals[k2] = self.e(v)
+            if "scalar_set" in d:
+                vals[list(t.c)[1].name] = self.e(d["scalar_set"])
+            if d.get("ordered"):
+                st = st.ordered_values(*[(k2, v) for k2, v in vals.items()])
+            else:
+                st = st.values(vals)
+            if "mysql_limit" in d:
+                st = st.with_dialect_options(mysql_limit=d["mysql_limit"])
+        else:
+            st = sa.delete(t)
+            if d.get("where") is not None:
+                st = st.where(self.e(d["where"]))
+            if "mysql_limit" in d:
+                st = st.with_dialect_options(mysql_limit=d["mysql_limit"])
+        st = self.returning(st, t, d.get("returning"))
+        st = self.add_cte(st, d.get("cte"))
+        return st
+
+    def ddl(self, r):
+        sa = self.sa
+        from sqlalchemy import schema as S
+
+        _, op, td, o = r
+        m = sa.MetaData()
+        sa.Table("other", m, sa.Column("id", sa.Integer, primary_key=True), sa.Column("Mixed Case", sa.Integer))
+        sa.Table("other", m, sa.Column("id", sa.Integer, primary_key=True), schema="sch")
+        cols = []
+        for c in td["cols"]:
+            args, kw = [], {}
+            if "fk" in c:
+                args.append(sa.ForeignKey(c["fk"][0], **c["fk"][1]))
+            if "identity" in c:
+                args.append(sa.Identity(**c["identity"]))
+            if "computed" in c:
+                args.append(sa.Computed(c["computed"][0], persisted=c["computed"][1]))
+            if "sequence" in c:
+                args.append(sa.Sequence(c["sequence"][0], **c["sequence"][1]))
+            if "server_default" in c:
+                sd = c["server_default"]
+                kw["server_default"] = {"text": lambda v: sa.text(v), "func": lambda v: sa.func.now(), "str": lambda v: v, "lit": lambda v: sa.literal(v),
+                                        "bool": lambda v: sa.true()}[sd[0]](sd[1])
+            if "default" in c:
+                kw["default"] = sa.func.now() if isinstance(c["default"], list) else c["default"]
+            for f in ("nullable", "comment", "unique", "index", "autoincrement"):
+                if f in c:
+                    kw[f] = c[f]
+            if c.get("pk"):
+                kw["primary_key"] = True
+            cols.append(sa.Column(c["name"], self.ty(c["type"]), *args, **kw))
+        topts = dict(td.get("opts", {}))
+        tkw = {}
+        if "prefixes" in topts:
+            tkw["prefixes"] = topts.pop("prefixes")
+        if "comment" in topts:
+            tkw["comment"] = topts.pop("comment")
+        t = sa.Table(td["name"], m, *cols, schema=td.get("schema"), **tkw, **topts)
+        target = None
+        ix = None
+        for cn in td.get("cons", []):
+            if cn[0] == "unique":
+                target = sa.UniqueConstraint(*cn[1], name=cn[2], **cn[3])
+                t.append_constraint(target)
+            elif cn[0] == "check":
+                target = sa.CheckConstraint(cn[1], name=cn[2])
+                t.append_constraint(target)
+            elif cn[0] == "pk":
+                target = sa.PrimaryKeyConstraint(*cn[1], name=cn[2], **cn[3])
+                t.append_constraint(target)
+            elif cn[0] == "index":
+                how = cn[4]
+                if how == "expr" and cn[2]:
+                    exprs = [sa.func.lower(t.c[cn[2][0]])]
+                elif how == "desc" and cn[2]:
+                    exprs = [t.c[cn[2][0]].desc()]
+                else:
+                    exprs = [t.c[x] for x in cn[2]]
+                ix = sa.Index(cn[1], *exprs, **cn[3])
+                if not cn[2]:
+                    ix._set_parent(t) if False else None
+        if op == "create_table":
+            return S.CreateTable(t, if_not_exists=o["if_exists"], include_foreign_key_constraints=None if o["include_fk"] is None else ([] if not o["include_fk"] else None))
+        if op == "drop_table":
+            return S.DropTable(t, if_exists=o["if_exists"])
+        if op in ("create_index", "drop_index"):
+            if ix is None:
+                ix = sa.Index("ixd", list(t.c)[0])
+            return S.CreateIndex(ix, if_not_exists=o["if_exists"]) if op == "create_index" else S.DropIndex(ix, if_exists=o["if_exists"])
+        if op in ("add_constraint", "drop_constraint", "set_constraint_comment"):
+            if target is None:
+                fks = list(t.foreign_key_constraints)
+                target = fks[0] if fks else t.primary_key
+            if op == "add_constraint":
+                return S.AddConstraint(target)
+            if op == "drop_constraint":
+                return S.DropConstraint(target, cascade=o["cascade"], if_exists=o["if_exists"])
+            target.comment = "cc"
+            return S.SetConstraintComment(target)
+        if op in ("create_sequence", "drop_sequence"):
+            sq = sa.Sequence("Se q" if o["cascade"] else "sq", start=3, increment=2, minvalue=1, cycle=True, schema=td.get("schema"), metadata=m)
+            return S.CreateSequence(sq, if_not_exists=o["if_exists"]) if op == "create_sequence" else S.DropSequence(sq, if_exists=o["if_exists"])
+        if op == "create_schema":
+            return S.CreateSchema(td.get("schema") or "sch x", if_not_exists=o["if_exists"])
+        if op == "drop_schema":
+            return S.DropSchema(td.get("schema") or "sch x", cascade=o["cascade"], if_exists=o["if_exists"])
+        if op == "set_table_comment":
+            t.comment = "it's"
+            return S.SetTableComment(t)
+        if op == "drop_table_comment":
+            return S.DropTableComment(t)
+        if op in ("set_column_comment", "drop_column_comment"):
+            c0 = list(t.c)[0]
+            c0.comment = "c'c"
+            return S.SetColumnComment(c0) if op == "set_column_comment" else S.DropColumnComment(c0)
+        if op == "create_table_as":
+            if not hasattr(S, "CreateTableAs"):
+                raise NotAccepted("no CreateTableAs")
+            return S.CreateTableAs(sa.select(self.T["t1"].c.id, self.T["t1"].c.s).where(self.T["t1"].c.x > 5), td["name"], schema=td.get("schema"),
+                                   temporary=o["cascade"], if_not_exists=o["if_exists"])
+        if op == "create_view":
+            if not hasattr(S, "CreateView"):
+                raise NotAccepted("no CreateView")
+            return S.CreateView(sa.select(self.T["t1"].c.id, self.T["t1"].c.s).where(self.T["t1"].c.x > 5), td["name"], schema=td.get("schema"),
+                                or_replace=o["cascade"])
+        if op in ("create_all", "drop_all"):
+            return ("metadata", m, op)
+        raise NotAccepted(op)
+
+    def build(self, r):
+        if r[0] in ("select", "setop"):
+            return self.sel(r)
+        if r[0] in ("insert", "update", "delete"):
+            return self.dml(r)
+        if r[0] == "ddl":
+            return self.ddl(r)
+        if r[0] == "raw":  # hand-written witnesses: a python expression over sqlalchemy names
+            import sqlalchemy as sa
+
+            ns = {"sa": sa}
+            exec("from sqlalchemy import *\nfrom sqlalchemy.schema import *\nfrom sqlalchemy.sql import operators, elements\nimport pickle", ns)
+            return eval(r[1], ns)
+        raise NotAccepted("stmt %r" % (r[0],))
+
+
+def _compile(st, d, opts):
+    from sqlalchemy import exc  # noqa
+
+    if isinstance(st, tuple) and st[0] == "metadata":
+        # create_all / drop_all against a mock connection that compiles every emitted DDL element
+        from sqlalchemy import create_mock_engine  # noqa
+
+        out = []
+
+        def ex(sql, *a, **k):
+            out.append(str(sql.compile(dialect=d)))
+
+        from sqlalchemy.engine.mock import MockConnection
+
+        mc = MockConnection(d, ex)
+        (st[1].create_all if st[2] == "create_all" else st[1].drop_all)(mc, checkfirst=False)
+        return "\n".join(out)
+    kw = {}
+    ck = {}
+    if opts.get("literal_binds"):
+        ck["literal_binds"] = True
+    if opts.get("render_postcompile"):
+        ck["render_postcompile"] = True
+    if ck:
+        kw["compile_kwargs"] = ck
+    if "schema_translate_map" in opts:
+        kw["schema_translate_map"] = {(k or None): (v or None) for k, v in opts["schema_translate_map"].items()}
+        if opts.get("render_schema_translate"):
+            kw["render_schema_translate"] = True
+    if opts.get("for_executemany") and getattr(st, "is_dml", False):
+        kw["for_executemany"] = True
+    c = st.compile(dialect=d, **kw)
+    s = str(c)
+    if opts.get("construct_params") and hasattr(c, "construct_params"):
+        try:
+            c.construct_params()
+        except Exception as e:  # missing values for required binds are documented errors
+            from sqlalchemy import exc as _e
+
+            if not isinstance(e, _e.SQLAlchemyError):
+                raise
+    return s
 
 
 def impl(c):
+    """observation: [-1] not accepted by the constructors | [0] compiled | [code, exception class name, first line]"""
+    from specs.c22 import classify
+
+    try:
+        d = dialect_variant(c["dv"])
+        st = B().build(c["src"])
+    except Exception:
+        return [-1]
+    try:
+        _compile(st, d, c.get("opts", {}))
+    except RecursionError:
+        return [-1]
+    except Exception as e:
+        import traceback
+
+        tb = traceback.extract_tb(e.__traceback__)
+        where = "%s:%s" % (tb[-1].filename.split("/lib/sqlalchemy/")[-1], tb[-1].name) if tb else ""
+        return [classify(e), type(e).__name__, str(e).split("\n")[0][:160], where]
     return [0]
 
 
 def oracle(c, obs):
-    return None
+    if not obs or obs[0] in (-1, 0, 1, 2):
+        return None
+    return "compile() raised %s (%s) at %s on dialect variant %s with options %r" % (obs[1], obs[2], obs[3], c["dv"], c.get("opts", {}))
+
+
+# ----------------------------------------------------------------------------------------------- known findings
+def _has(src, pred):
+    if pred(src):
+        return True
+    if isinstance(src, list):
+        return any(_has(x, pred) for x in src)
+    if isinstance(src, dict):
+        return any(_has(x, pred) for x in src.values()) or any(pred(k) for k in src)
+    return False
+
+
+def _sig(what):
+    import re
+
+    m = re.match(r"compile\(\) raised (\w+) \((.*)\) at (\S*) on dialect variant (\S+) with options", what, re.S)
+    return {"exc": m.group(1), "msg": m.group(2), "where": m.group(3), "dv": m.group(4)} if m else {"exc": "", "msg": "", "where": "", "dv": ""}
+
+
+def _strings(src):
+    out = []
+
+    def go(x):
+        if isinstance(x, str):
+            out.append(x)
+        elif isinstance(x, list):
+            for y in x:
+                go(y)
+        elif isinstance(x, dict):
+            for k, v in x.items():
+                go(k)
+                go(v)
+
+    go(src)
+    return out
+
+
+def _ddl(c):
+    s = c["src"]
+    return s if isinstance(s, list) and s and s[0] == "ddl" else None
+
+
+def _indexes(c):
+    d = _ddl(c)
+    return [x for x in d[2].get("cons", []) if x[0] == "index"] if d else []
+
+
+_PREFIX_FAMILY = {"pg": "postgresql", "my": "mysql", "ms": "mssql", "ora": "oracle", "lite": "sqlite"}
+
+
+def _foreign_type(c):
+    fam = FAMILY(c["dv"])
+    fam = "mysql" if fam == "mariadb" else fam
+    for st in _strings(c["src"]):
+        if "." in st and st.split(".")[0] in _PREFIX_FAMILY and st.split(".")[1].isupper() and _PREFIX_FAMILY[st.split(".")[0]] != fam:
+            return True
+    return False
+
+
+def _m_empty_ident(c, w):
+    g = _sig(w)
+    return g["exc"] == "IndexError" and g["where"].endswith("_requires_quotes") and "" in _strings(c["src"])
+
+
+def _m_unnamed_index(c, w):
+    g = _sig(w)
+    fam = "mysql" if FAMILY(c["dv"]) == "mariadb" else FAMILY(c["dv"])
+    op = _ddl(c)[1] if _ddl(c) is not None else None
+    missing = {"create_index": {"sqlite", "postgresql", "mysql", "mssql", "oracle"}, "drop_index": {"postgresql", "mysql", "mssql"}}
+    missing["create_all"], missing["drop_all"] = missing["create_index"], missing["drop_index"]
+    return (g["exc"] == "AssertionError" and g["where"].endswith("format_constraint") and op in missing and fam in missing[op]
+            and any(x[1] is None for x in _indexes(c)))
+
+
+def _m_unnamed_constraint(c, w):
+    g = _sig(w)
+    return (g["exc"] == "AssertionError" and g["where"].endswith("format_constraint") and _ddl(c) is not None
+            and _ddl(c)[1] == "drop_constraint" and FAMILY(c["dv"]) in ("mysql", "mariadb"))
+
+
+def _m_escaped_bind(c, w):
+    import re
+
+    g = _sig(w)
+    if g["exc"] != "KeyError" or not g["where"].endswith(("_process_parameters_for_postcompile", "process_expanding")):
+        return False
+    return _has(c["src"], lambda x: isinstance(x, list) and len(x) == 4 and x[0] == "bp" and isinstance(x[1], str)
+                and re.search(r"\W", x[1]) is not None and x[3] in ("literal_execute", "expanding"))
+
+
+def _m_rescan(c, w):
+    import re
+
+    g = _sig(w)
+    if g["exc"] != "KeyError":
+        return False
+    if not (g["where"].endswith(":<lambda>") or g["where"].endswith("_process_parameters_for_postcompile")
+            or g["where"].endswith("_process_positional") or g["where"].endswith("_process_numeric")):
+        return False
+    m = re.match(r"'(\w+)'", g["msg"])
+    return bool(m) and any("%(" + m.group(1) + ")s" in st for st in _strings(c["src"]))
+
+
+def _m_mssql_labelref(c, w):
+    g = _sig(w)
+    return (g["exc"] == "AssertionError" and "textual label reference" in g["msg"] and g["dv"].startswith("mssql")
+            and _has(c["src"], lambda x: isinstance(x, list) and len(x) == 2 and x[0] == "labelref"))
+
+
+def _m_foreign_type(c, w):
+    import re
+
+    g = _sig(w)
+    return (g["exc"] in ("AttributeError", "TypeError") and _foreign_type(c)
+            and (re.search(r"dialects/\w+/base\.py:visit_[A-Z_0-9]+$", g["where"]) is not None or g["where"].endswith("constructor_copy")))
+
+
+def _m_foreign_on_conflict(c, w):
+    g = _sig(w)
+    s = c["src"]
+    return (g["exc"] == "AttributeError" and g["where"].endswith("_on_conflict_target") and g["dv"].startswith("postgresql")
+            and s[0] == "insert" and (s[1].get("on_conflict") or [None])[0] == "sqlite")
+
+
+def _m_mssql_comment(c, w):
+    g = _sig(w)
+    return (g["exc"] == "AttributeError" and g["where"].endswith("mssql/base.py:_schema_elements") and g["dv"].startswith("mssql")
+            and _ddl(c) is not None and not _ddl(c)[2].get("schema"))
+
+
+def _m_noansi(c, w):
+    g = _sig(w)
+    return g["exc"] == "AttributeError" and "_OuterJoinColumn" in g["msg"] and g["dv"] == "oracle-noansi"
+
+
+def _m_nodispatch(c, w):
+    g = _sig(w)
+    return g["exc"] == "AttributeError" and "_compiler_dispatch" in g["msg"] and "TupleType" in _strings(c["src"])
+
+
+def _m_aggstr(c, w):
+    g = _sig(w)
+    return (g["exc"] == "TypeError" and "visit_aggregate_strings_func" in g["msg"] and g["dv"].startswith("default")
+            and "aggregate_strings" in _strings(c["src"]))
+
+
+def _m_dropix_notable(c, w):
+    g = _sig(w)
+    return (g["exc"] == "AttributeError" and g["where"].endswith("format_table") and "NoneType" in g["msg"] and _ddl(c) is not None
+            and _ddl(c)[1] in ("drop_index", "drop_all") and any(not x[2] for x in _indexes(c))
+            and FAMILY(c["dv"]) in ("mssql", "mysql", "mariadb"))
+
+
+def _m_mysql_ixlen(c, w):
+    g = _sig(w)
+    return (g["exc"] == "AttributeError" and "UnaryExpression" in g["msg"] and FAMILY(c["dv"]) in ("mysql", "mariadb")
+            and any(isinstance(x[3].get("mysql_length", x[3].get("mariadb_length")), dict) and x[4] in ("desc", "expr") for x in _indexes(c)))
+
+
+def _m_raw_any(c, w):
+    """hand-written witnesses carry the id of the finding they demonstrate and the exception class they expect"""
+    return c["src"][0] == "raw" and bool(c.get("finding")) and _sig(w)["exc"] == c.get("exc")
+
+
+MATCHERS = [
+    ("C22-empty-identifier-indexerror", _m_empty_ident),
+    ("C22-unnamed-index-assertionerror", _m_unnamed_index),
+    ("C22-unnamed-constraint-drop-assertionerror", _m_unnamed_constraint),
+    ("C22-postcompile-escaped-bindname-keyerror", _m_escaped_bind),
+    ("C22-pyformat-rescan-keyerror", _m_rescan),
+    ("C22-mssql-rownumber-textual-label-assertion", _m_mssql_labelref),
+    ("C22-foreign-dialect-type-same-visit-name", _m_foreign_type),
+    ("C22-foreign-dialect-on-conflict-attributeerror", _m_foreign_on_conflict),
+    ("C22-mssql-comment-ddl-no-default-schema", _m_mssql_comment),
+    ("C22-oracle-noansi-outerjoin-ilike-attributeerror", _m_noansi),
+    ("C22-visitable-without-dispatch", _m_nodispatch),
+    ("C22-aggregate-strings-default-dialect-typeerror", _m_aggstr),
+    ("C22-drop-index-without-table-attributeerror", _m_dropix_notable),
+    ("C22-mysql-index-length-dict-expression-attributeerror", _m_mysql_ixlen),
+]
 
 
 def match_finding(c, what):
+    if _m_raw_any(c, what):
+        return c["finding"]
+    for fid, fn in MATCHERS:
+        try:
+            if fn(c, what):
+                return fid
+        except Exception:
+            continue
     return None
